@@ -8,6 +8,9 @@ Inductive robs :=
 | ROk (order : list nat)       (* ids of the allocating items, in the order of their private-function numbers *)
       (loads : list nat)       (* ids of the load items in the order of their lines in __load__ *)
       (opened : list apath)    (* .jmc files opened for reading, in order *)
+      (wids : list nat)        (* round 3: ids of the watched load statements (`$q += n;` under Debug.watch($q)), in order, and *)
+      (wfiles : list apath)    (*          the file each of them was compiled as text of (file name printed by Debug.watch) *)
+| RBad (n : nat) (f : apath)   (* round 3: the failing load statement n is diagnosed, as a statement of file f *)
 | RDup (n : nat)               (* "Duplicate function declaration" of definition n *)
 | RNotFound (p : apath)        (* JMCFileNotFoundError: JMC file not found *)
 | RDirNotFound (p : apath)     (* JMCFileNotFoundError: Directory(folder) not found *)
@@ -17,6 +20,9 @@ Record case := mkCase {
   c_mode : mode;
   c_tree : tree; c_dirs : dirs; c_cwd : apath; c_mabs : bool; c_mraw : list comp;
   c_alloc : list nat;
+  c_watch : list nat;            (* ids of the load statements whose file is observable in the output *)
+  c_bad : list nat;              (* ids of the load statements that do not compile *)
+  c_hidden : list nat;           (* ids of the load statements that leave no line of their own in __load__ *)
   c_real : robs
 }.
 
@@ -33,6 +39,10 @@ Fixpoint first_dup (seen l : list nat) : option nat :=
   | x :: r => if memn x seen then Some x else first_dup (x :: seen) r
   end.
 
+(* every load statement with the file of the tokenizer its batch was parsed with *)
+Definition stmt_toks (evs : list event) : list (nat * apath) :=
+  flat_map (fun e => match e with EvBatch tok l => map (fun x => (l_id x, tok)) l | _ => [] end) evs.
+
 Definition fuel_for (c : case) : nat := S (S (length (c_tree c))).
 
 Definition model_obs (c : case) : robs :=
@@ -42,9 +52,15 @@ Definition model_obs (c : case) : robs :=
   | Err EFuel => ROther
   | Ok evs =>
       let its := items_of evs in
+      match find (fun p => memn (fst p) (c_bad c)) (stmt_toks evs) with
+      | Some (n, f) => RBad n f
+      | None =>
       match first_dup [] (def_ids its) with
       | Some n => RDup n
-      | None => ROk (filter (fun n => memn n (c_alloc c)) (map id_of its)) (load_ids its) (opens evs)
+      | None =>
+          let w := filter (fun p => memn (fst p) (c_watch c)) (stmt_toks evs) in
+          ROk (filter (fun n => memn n (c_alloc c)) (map id_of its)) (filter (fun n => negb (memn n (c_hidden c))) (load_ids its)) (opens evs) (map fst w) (map snd w)
+      end
       end
   end.
 
@@ -63,7 +79,9 @@ Fixpoint pathlist_eqb (a b : list apath) : bool :=
 
 Definition robs_eqb (a b : robs) : bool :=
   match a, b with
-  | ROk o1 l1 p1, ROk o2 l2 p2 => natlist_eqb o1 o2 && natlist_eqb l1 l2 && pathlist_eqb p1 p2
+  | ROk o1 l1 p1 w1 f1, ROk o2 l2 p2 w2 f2 =>
+      natlist_eqb o1 o2 && natlist_eqb l1 l2 && pathlist_eqb p1 p2 && natlist_eqb w1 w2 && pathlist_eqb f1 f2
+  | RBad n f, RBad m g => Nat.eqb n m && path_eqb f g
   | RDup n, RDup m => Nat.eqb n m
   | RNotFound p, RNotFound q => path_eqb p q
   | RDirNotFound p, RDirNotFound q => path_eqb p q
